@@ -731,6 +731,21 @@ func gmLoadCaptures(cfg *config) {
 	}
 }
 
+// gmTopBoundaries marks the offsets at which a top-level element of a well-formed stream ends
+// (a cut there leaves a shorter well-formed stream).
+func gmTopBoundaries(data []byte) map[int]bool {
+	b := map[int]bool{0: true}
+	for off := 0; off+8 <= len(data); {
+		size := int(data[off+5])
+		count := int(binary.BigEndian.Uint16(data[off+6:]))
+		n := size * count
+		n += (4 - n%4) % 4
+		off += 8 + n
+		b[off] = true
+	}
+	return b
+}
+
 func genGM(cfg *config, r *rng, i int, s *sink) string {
 	gmLoadCaptures(cfg)
 	gmBig = cfg.prop == "C06" || cfg.prop == "C09"
@@ -758,8 +773,26 @@ func genGM(cfg *config, r *rng, i int, s *sink) string {
 		}
 		return fmt.Sprintf("walk %s %s %s", hexBytes(tree), sk, stop)
 	}
+	if stream == "wf" && i%3 == 1 && cfg.prop != "C16" && cfg.prop != "C07" {
+		stream = "trunc"
+	}
 	s.count("gm.stream." + stream)
 	switch stream {
+	case "trunc":
+		// a well-formed stream cut short anywhere but between two top-level elements: an error
+		tree := gmTree(r, s)
+		bounds := gmTopBoundaries(tree)
+		if len(tree) > 0 {
+			// prefer the interesting cuts: right after a header, inside the padding, mid-payload
+			k := 1 + r.intn(len(tree)-0)
+			if k >= len(tree) {
+				k = len(tree) - 1
+			}
+			if k > 0 && !bounds[k] {
+				return "read trunc " + hexBytes(tree[:k])
+			}
+		}
+		return "read wf " + hexBytes(tree)
 	case "wf":
 		return "read wf " + hexBytes(gmTree(r, s))
 	case "mut":
